@@ -96,6 +96,7 @@ fn record_stats(st: &mut Stats, sc: &Scenario, r: &RunResult) {
         st.distinct("schedule_shape", g.finish());
         st.add("context_switches", r.obs.schedule_taken.windows(2).filter(|w| w[0] != w[1]).count() as u64);
         st.add("overlap_events", r.obs.overlap_events);
+        st.add("fault/parked_inside_panic_hook", r.obs.hook_parks);
         if r.obs.overlap_events > 0 {
             st.inc("runs_with_overlap");
         }
@@ -293,6 +294,10 @@ fn isolated_fails(c: &Scenario) -> Option<String> {
 
 fn make_replay(sc_orig: &Scenario, sc_min: &Scenario, m: &Mismatch, seed: Option<u64>, index: Option<u64>, steps: usize) -> Replay {
     let r = run_scenario(sc_min);
+    // a violation that depends on something outside the scenario (e.g. state a mutant shares between
+    // the parallel simulations of this process) may not fail again: keep what was seen, say so
+    let (sc_min, r, replayable) = if r.mismatch.is_some() { (sc_min, r, true) } else { (sc_orig, run_scenario(sc_orig), false) };
+    let seen = r.mismatch.clone().unwrap_or_else(|| m.clone());
     Replay {
         format: 1,
         property: "C05".into(),
@@ -301,13 +306,14 @@ fn make_replay(sc_orig: &Scenario, sc_min: &Scenario, m: &Mismatch, seed: Option
         verif_seed: seed,
         run_index: index,
         scenario: sc_min.clone(),
-        expected: r.mismatch.as_ref().map(|x| x.expected.clone()).unwrap_or_default(),
-        observed: r.mismatch.as_ref().map(|x| x.observed.clone()).unwrap_or_default(),
+        expected: seen.expected.clone(),
+        observed: seen.observed.clone(),
         observed_digest: format!("{:016x}", r.trace_digest),
         minimised: json!({
             "from": {"threads": sc_orig.threads.len(), "statements": sc_orig.stmt_count(), "schedule": sc_orig.schedule.len()},
             "to": {"threads": sc_min.threads.len(), "statements": sc_min.stmt_count(), "schedule": sc_min.schedule.len()},
-            "steps": steps
+            "steps": steps,
+            "fails_again_when_rerun_in_isolation": replayable && r.mismatch.is_some()
         }),
     }
 }
@@ -361,7 +367,8 @@ fn arg<'a>(args: &'a [String], name: &str) -> Option<&'a str> {
 }
 
 fn install_silent_panic_hook() {
-    std::panic::set_hook(Box::new(|_| {}));
+    // silent; for simulated caller threads the start of a panic is a scheduler point
+    std::panic::set_hook(Box::new(|_| interp::panic_hook_point()));
 }
 
 struct Acc {
